@@ -36,7 +36,7 @@ TRUSTED = [
     (r"^toodee\.rs\|impl.*(Iterator|DoubleEndedIterator|ExactSizeIterator).*for DrainCol.*\|", ["C05", "C07", "C12"], "DrainCol cursor over raw pointers (bounded Kani)"),
     (r"^toodee\.rs\|impl.*Drop for (DrainCol|DropGuard).*\|drop$", ["C01", "C05", "C07", "C11", "C12"], "DrainCol destructor / DropGuard: closes the gap left by the removed column (bounded Kani)"),
     (r"^sort\.rs\|-\|sorted_box_to_ordering$", ["C16", "C17"], "raw cast of the sorted side buffer (inside the R5d stub)"),
-    (r"^(toodee|view)\.rs\|impl.*IntoIterator for .*\|into_iter$", ["C10", "C20"], "IntoIterator forms: one-line delegations to cells()/cells_mut()/Vec::into_iter"),
+    (r"^(toodee|view)\.rs\|impl.*IntoIterator for &'a mut .*\|into_iter$", ["C10"], "IntoIterator on &mut: one-line delegations to cells_mut() (CellsMut not instantiated a second time)"),
     (r"^flattenexact\.rs\|.*\|(fold|rfold)$", ["C10"], "FlattenExact fold/rfold (closure-passing; not under contract)"),
     (r"^ops\.rs\|.*\|cells_mut$", ["C10"], "cells_mut: FlattenExact::new(self.rows_mut()) (CellsMut not instantiated a second time)"),
     (r"^serde\.rs\|.*\|(deserialize|expecting)$", ["C18", "C19"], "Deserialize entry point: deserialize_struct(\"TooDee\", FIELDS, visitor)"),
